@@ -13,7 +13,7 @@
 EXTENDS Framework, FrameworkObs, Families, Json
 
 CONSTANTS FamilyId,     \* which family of configurations (Families.tla)
-          MaxCalls, MaxBatch, TimeSteps, AlphabetId,
+          MaxCalls, MaxBatch, TimeStepsId, AlphabetId,
           KeepHist
 
 VARIABLES S, o, hist, ncalls
@@ -21,6 +21,7 @@ vars == <<S, o, hist, ncalls>>
 
 Confs    == FamilyConfs(FamilyId)
 Alphabet == AlphabetOf(AlphabetId)
+TimeSteps == TimeStepsOf(TimeStepsId)
 
 \* all sequences over A of length 0..n
 SeqsUpTo(A, n) == UNION {[1..k -> A] : k \in 0..n}
